@@ -115,7 +115,10 @@ def work(item):
     if tier == 'quick' and d > 2:
         rng = random.Random(seed * 31 + d)
         rng.shuffle(mine)
-        mine = mine[:max(1, (480 if d == 3 else 160) // nchunks)]
+        # stratum first: every (statement kind, operation form) pair of this dimension once, in its plainest storage/alias setting, so that a
+        # dimension-specific kernel line interacting with =, += or -= is never left to chance; then the seeded sample
+        core = [sh for sh in allshapes if sh[2] in ('own-same', 'dead') and sh[3] == 'own' and sh[4] == 'own' and sh[5] == 'none'][chunk::nchunks]
+        mine = core + [sh for sh in mine if sh not in core][:max(1, (480 if d == 3 else 160) // nchunks)]
     nrun = 0
     for shape in mine:
         prog, stmt_ins = build_shape(d, dother, shape)
@@ -277,7 +280,7 @@ def main(tier):
     nshape = len(list(shapes(2, 3)))
     chk.cov['bounds'] = {'shape space per dimension': '%d shapes = {=,+=,-=,construct} x 21 operation/value-category forms (9 operations) x target {empty, self-owned same/other size, external same/other size} x operand storage {self-owned, external}^2 x alias {none, v=a, v=b, v shares a\'s external buffer, a=b}, minus combinations that do not exist' % nshape,
                          'guarantee flags': 'every subset of {NoAlias, EqualSizes, AlignedStorage} that is true for the shape (thorough); the maximal true subset (quick)',
-                         'dimensions': 'quick: every shape for d=2, seeded samples of 480 shapes for d=3 and 160 shapes for each of d=4,5,6 (VERIF_SEED rotates them); thorough: every shape for d=2..6', 'values': 'all components, the scalar and the evolution table symbolic'}
+                         'dimensions': 'quick: every shape for d=2, for d=3..6 every (statement kind, operation form) pair once with plain storage (84 shapes per dimension) plus seeded samples of 480 shapes for d=3 and 160 shapes for each of d=4,5,6 (VERIF_SEED rotates them); thorough: every shape for d=2..6', 'values': 'all components, the scalar and the evolution table symbolic'}
     chk.cov['domains'] = ['heap/object model; values compared as normal-form polynomials against the twin (same kernels on fresh, non-aliased operands into a fresh temporary)']
     chk.cov['stubs'] = ['operator new[]: ledger (allocation count for the documented no-allocation shapes)', 'sin/cos: atoms (Evolve shapes)']
     chk.assumptions = ['the twin uses the library\'s own kernels on fresh operands: the content of the kernels is decided in C02/C03; here the subject is the glue (alias detection, resize/theft policy, wrappers, traits)',
